@@ -1,7 +1,7 @@
 (** Dispatch table of the extracted correspondence driver: each model function wrapped
     as [val -> val].  The harness (harness/model.py) reads the ids and names from the
     comments of [dispatch], so this file is the single registry. *)
-From SE Require Import Base Codecs Fat.
+From SE Require Import Base Codecs Fat Stream.
 From Coq Require Import Floats.PrimFloat Floats.SpecFloat Floats.FloatOps.
 
 (** floats travel as (kind sign mantissa exponent): kind 0 = finite (value = +-m*2^e,
@@ -41,6 +41,38 @@ Definition unlink (v : val) : link :=
   match v with VL [VI n; VI e] => {| lnext := n; lend := negb (e =? 0) |} | _ => dlink end.
 Definition nth_arg (a : val) (n : nat) : val := nth n (unVL a) (VI 0).
 
+Fixpoint unview (fuel : nat) (v : val) : view :=
+  match fuel with
+  | O => Base
+  | S f =>
+    match v with
+    | VL [VI 1; k; VI size; sub] =>
+        let kd := match k with
+                  | VL [VI 1; VI off] => KOff off
+                  | VL [VI 2; VI L; VL [VI 0]] => KSect L MPlain
+                  | VL [VI 2; VI L; VL [VI 1; secs]] => KSect L (MChain (unVLZ secs))
+                  | VL [VI 2; VI L; VL [VI 2]] => KSect L MMdf
+                  | VL [VI 3; VI w] => KRev w
+                  | _ => KWrap
+                  end in
+        V kd size (unview f sub)
+    | _ => Base
+    end
+  end.
+Definition unop (v : val) : op :=
+  match v with
+  | VL [VI 0; VI off; VI wh] => OSeek off wh
+  | VL [VI 2; VI n] => ORead n
+  | _ => OTell
+  end.
+Definition vout (o : out) : val :=
+  match o with
+  | OutPos p => VL [VI 0; VI p]
+  | OutBytes b => VL [VI 1; vlistZ b]
+  | OutErr e => VL [VI 2; VI (exn_code e)]
+  | OutFuel => VL [VI 3]
+  end.
+
 Definition dispatch (id : Z) (a : val) : val :=
   match id with
   | 101 (* fast_akai_to_ascii_byte *) => vres VI (fast_akai_to_ascii_byte (unVI a))
@@ -67,5 +99,10 @@ Definition dispatch (id : Z) (a : val) : val :=
   | 206 (* roland_get_file *) =>
       vres vlistZ (t <- roland_decode (unVLZ (nth_arg a 0)) ;;
                    roland_get_file (zlen (unVLZ (nth_arg a 0))) (snd t) (unVI (nth_arg a 1)) (unVI (nth_arg a 2)))
+  | 301 (* run_view *) =>
+      let v := unview 16 (nth_arg a 0) in
+      VL (map vout (fst (run v (unVLZ (nth_arg a 1)) (init_state v (unVI (nth_arg a 2)))
+                            (map unop (unVL (nth_arg a 3))))))
+  | 302 (* rev_samples *) => vlistZ (rev_samples (unVI (nth_arg a 0)) (unVLZ (nth_arg a 1)))
   | _ => vbad
   end.
